@@ -1036,8 +1036,9 @@ def _run_requirements(lines_per_file):
             os.makedirs(sub)
             with open(os.path.join(sub, "requirements.txt"), "w") as f:
                 f.write("\n".join(lines) + "\n")
-        with patch("custom_components.pyscript.requirements.get_installed_version", return_value=None):
-            r = process_all_requirements(d, ("", "modules/*"), "requirements.txt")
+        # the real get_installed_version runs too (none of the package names used here is installed in the sandbox): a line without
+        # a package name is rejected through it (importlib.metadata refuses the empty name)
+        r = process_all_requirements(d, ("", "modules/*"), "requirements.txt")
     return {k: v["version"] for k, v in r.items()}
 
 
@@ -1097,7 +1098,7 @@ async def c20_scanner_bounded(w):
             cases.append(f"{p1}{n}<={v}{c}")
             cases.append(f"{p1}{n}=={v},<9{c}")
             cases.append(f"{p1}{n}=={v}=={v}{c}")
-    cases += ["", "   ", "#only comment", "  # x", "==1.0"]
+    cases += ["", "   ", "#only comment", "  # x", "==1.0", " == 2.5", "==1.0 # c"]
     cases = sorted(set(cases))
 
     def oracle(line):
@@ -1108,7 +1109,7 @@ async def c20_scanner_bounded(w):
             return {}
         if "==" in t:
             n, v = t.split("==")
-            return {n: v}
+            return {n: v} if n else {}      # a requirement needs a package name
         return {t: "_unpinned_version"}
     failures = []
     for line in cases:
@@ -1563,6 +1564,49 @@ async def c18_traceback_bounded(w):
         norm = lambda t: None if t is None else (t[0], [("<module>" if nm in ("<module>", "file.tb", None) else nm, ln) for nm, ln in t[1]])
         if norm(cpy) != norm(pys):
             failures.append({"signature": "traceback:" + label, "program": src, "cpython": norm(cpy), "pyscript": norm(pys)})
+    # chained exceptions: "raise X from Y", implicit context (raise inside except), "raise X from None" (context suppressed),
+    # and nestings of them: the chain pyscript reports = the chain Python's own traceback reports
+    chain_programs = {
+        "from-cause": "def f():\n    try:\n        1 / 0\n    except ZeroDivisionError as e:\n        raise ValueError('v') from e\nf()\n",
+        "implicit-context": "def f():\n    try:\n        1 / 0\n    except ZeroDivisionError:\n        raise ValueError('v')\nf()\n",
+        "from-none": "def f():\n    try:\n        1 / 0\n    except ZeroDivisionError:\n        raise ValueError('v') from None\nf()\n",
+        "from-none-after-context": "def f():\n    try:\n        try:\n            1 / 0\n        except ZeroDivisionError:\n            raise KeyError('k')\n    except KeyError:\n        raise ValueError('v') from None\nf()\n",
+        "cause-with-own-context": "def f():\n    try:\n        try:\n            1 / 0\n        except ZeroDivisionError:\n            raise KeyError('k')\n    except KeyError as e:\n        raise ValueError('v') from e\nf()\n",
+        "plain": "def f():\n    raise ValueError('v')\nf()\n",
+    }
+    for label, src in chain_programs.items():
+        n += 1
+        fname = "/cfg/pyscript/chain.py"
+
+        def chain_py(e):
+            out, te = [], traceback.TracebackException.from_exception(e)
+            while te is not None:
+                nxt, kind = (te.__cause__, "cause") if te.__cause__ is not None else ((te.__context__, "context") if te.__context__ is not None and not te.__suppress_context__ else (None, None))
+                out.append((te.exc_type.__name__, kind))
+                te = nxt
+            return out
+        try:
+            exec(compile(src, fname, "exec", dont_inherit=True), {})
+            cpy = None
+        except Exception as e:  # noqa
+            cpy = chain_py(e)
+        gctx = GlobalContext("file.chain", global_sym_table={"__name__": "file.chain"}, manager=GlobalContextMgr)
+        gctx.file_path, gctx.source = fname, src
+        a = AstEval("file.chain", global_ctx=gctx)
+        Function.install_ast_funcs(a)
+        a.parse(src, filename=fname)
+        try:
+            await a.eval()
+            pys = None
+        except Exception as e:  # noqa
+            f, pys = EvalExceptionFormatter(e), []
+            while f is not None:
+                nxt = getattr(f, "chained_exc", None)
+                kind = None if nxt is None else ("cause" if getattr(f, "chained_msg", None) == traceback._cause_message else "context")
+                pys.append((type(f.exc).__name__ if hasattr(f, "exc") else "?", kind))
+                f = nxt
+        if cpy != pys:
+            failures.append({"signature": "chain:" + label, "program": src, "cpython": cpy, "pyscript": pys})
     # cross-file call chain: a function defined in one file, called from another (as after an import)
     n += 1
     ga = GlobalContext("modules.mymod", global_sym_table={"__name__": "mymod"}, manager=GlobalContextMgr)
@@ -1606,7 +1650,7 @@ async def c18_traceback_bounded(w):
         failures.append({"signature": "log:percent-in-message", "records": msgs[:3]})
     await shutdown()
     return {"unit": "EvalExceptionFormatter (file, function, line) attribution", "method": "generated faulty programs vs CPython traceback",
-            "bound": "call depth 1-3 x 4 fault kinds x 5 enclosing constructs x 2 positions; a natively compiled (@pyscript_compile) callee x 4 fault kinds x 7 enclosing constructs", "cases": n, "failures": failures[:5],
+            "bound": "call depth 1-3 x 4 fault kinds x 5 enclosing constructs x 2 positions; a natively compiled (@pyscript_compile) callee x 4 fault kinds x 7 enclosing constructs; 6 exception-chaining programs (cause / context / from None)", "cases": n, "failures": failures[:5],
             "reproduced": bool(failures)}
 
 
@@ -2892,7 +2936,7 @@ async def c19_framing_bounded(w):
         frames = wire_msg[i + 2:]
         return {"ids": wire_msg[:i], "sig_ok": wire_msg[i + 1] == sign(frames), "header": js.loads(frames[0]), "parent": js.loads(frames[1]),
                 "metadata": js.loads(frames[2]), "content": js.loads(frames[3])}
-    cells = [("1+1", "2"), ("x = 3", None), ("x * 2", "6"), ("1/0", "error"), ("x", "3")]
+    cells = [("1+1", "2"), ("x = 3", None), ("x * 2", "6"), ("1/0", "error"), ("x", "3"), ("x - 3", "0"), ("''", "''"), ("[]", "[]"), ("x == 4", "False"), ("None", None)]
     count = kernel.execution_count
     script = [("kernel_info_request", {}, "kernel_info_reply")]
     for code, _ in cells:
